@@ -193,6 +193,8 @@ C03_UndelegationPriced(w1, e, w2, o1) ==
     /\ (IsHookTx(e, "stsei", "unbond") => rec.bRate = o1.rep.rateB)
     /\ DecLe(o1.rep.rateB, rec.bRate) \/ PoolZero("bsei", w1, o1.rep)
     /\ MulDec(rec.bAmt, rec.bRate) <= o1.rep.bondB \/ PoolZero("bsei", w1, o1.rep)
+    \* the coins undelegated are the two floors, each pool's requests at that pool's rate (no joint rounding)
+    /\ SumAmt(FxOfKind(e, "undelegate")) = MulDec(rec.bAmt, rec.bRate) + MulDec(rec.stAmt, rec.stRate)
 C03_Step(w1, e, w2, o1) ==
   /\ C03_Bond(w1, e, w2, o1) /\ C03_BondSt(w1, e, w2, o1) /\ C03_ConvertStB(w1, e, w2, o1)
   /\ C03_ConvertBSt(w1, e, w2, o1) /\ C03_UndelegationPriced(w1, e, w2, o1)
